@@ -221,6 +221,12 @@ def same_class_geometries(c, kind):
         d = np.array([c.real(f'd{i}') for i in range(m)])
         c.eq('adjoint_of_parameters', np.asarray(model.adjoint(d)), dense_adj(d), tol=1e-12)
         c.eq('adjoint_of_cuqiarray_parameters', np.asarray(model.adjoint(CUQIarray(d.copy(), is_par=True, geometry=gr))), dense_adj(d), tol=1e-12)
+        # a sample collection through the adjoint: one column per sample, labelled with the geometry the adjoint maps INTO (the model's domain)
+        SA = model.adjoint(Samples(np.stack([d, 2 * d], axis=-1), gr))
+        c.holds('adjoint_of_samples_is_a_sample_collection_on_the_domain_geometry', isinstance(SA, Samples) and SA.geometry == gd and not (SA.geometry == gr), note=repr(getattr(SA, 'geometry', None)))
+        c.eq('adjoint_of_samples_column', SA.samples[:, 1], dense_adj(2 * d), tol=1e-12)
+        SFw = model.forward(Samples(np.stack([p, p], axis=-1), gd))
+        c.holds('forward_of_samples_is_a_sample_collection_on_the_range_geometry', isinstance(SFw, Samples) and SFw.geometry == gr and not (SFw.geometry == gd), note=repr(getattr(SFw, 'geometry', None)))
         M = model.get_matrix(); M = M.toarray() if hasattr(M, 'toarray') else np.asarray(M)
         c.eq('matrix_times_parameters_is_forward_of_cuqiarray', M @ p, np.asarray(oa), tol=1e-12)
 
